@@ -32,7 +32,27 @@ def replay_small_factors(model):
     return NATIVE_SMALL_FACTORS.replace('%(cands)s', repr([(mget(model, 'n'), mget(model, 'max_factor'))]))
 
 
+NATIVE_REPEATS = None
+
+
+def replay_repeats(model):
+    from pyvc.util import native_file
+    return native_file('bounded/c09_repeats.py')
+
+
+BOUNDED = [dict(name='standin.repeats-end-to-end', function='the whole pipeline around the kernels: grammar loading, template expansion, SimplifyRule/compile, LALR and Earley on the generated helper rules; re semantics of the produced quantifiers',
+                code=__import__('pyvc.util', fromlist=['native_file']).native_file('bounded/c09_repeats.py'),
+                bound={'quick': '5 item kinds x 20 (n, m) pairs up to 211 x ~8 repetition counts around the bounds x LALR/Earley; ?,*,+; 12 terminal items x 12 quantifiers x 2 engines',
+                       'thorough': '5 item kinds x ~190 (n, m) pairs up to 600 x counts around the bounds; 12 terminal items x 31 quantifiers'},
+                note='bounded: stands in for the unverified pipeline stages; never counted as proved')]
+
+
 def register(reg):
+    register_small_factors(reg)
+    register_repeats(reg)
+
+
+def register_small_factors(reg):
     reg.specfun('FOLD', [('xs', 'seq[tuple[int,int]]')], 'int',
                 body='1 if len(xs) <= 0 else FOLD(xs[:len(xs)-1]) * xs[len(xs)-1][0] + xs[len(xs)-1][1]',
                 doc='n = 1; for a, b in xs: n = n*a + b   (docstring of small_factors)')
@@ -42,8 +62,169 @@ def register(reg):
                  requires=['n >= 0', 'max_factor > 2'],
                  ensures=['FOLD(seq(result)) == n', 'len(result) >= 1', 'fresh(result)',
                           'all(result[i][0] + result[i][1] <= max_factor and result[i][1] >= 0 and result[i][0] >= 0 for i in range(0, len(result)))',
-                          'all(result[i][0] >= 2 for i in range(1, len(result)))'],
+                          'all(result[i][0] >= 2 for i in range(1, len(result)))',
+                          'implies(n >= 1, result[0][0] >= 1)'],
                  decreases='n',
                  loops={0: dict(inv=['2 <= a', 'a <= max_factor', 'n >= 1'])},
                  replay=replay_small_factors,
                  names={'small_factors': ('contract', 'lark.utils:small_factors')})
+
+
+def register_repeats(reg):
+    """Count algebra of the rule trees EBNF_to_BNF builds for x~n..m.
+
+    LO(t)/HI(t): the tree or symbol t matches exactly the numbers LO(t)..HI(t) of consecutive occurrences of the repeated item - all
+    of them and nothing else.  The grammar semantics of the two tree constructors is the (assumed, definitional) contract of ST:
+      expansion  [c0 .. ck]  = concatenation: counts add up                      (SUML/SUMH over the child list)
+      expansions [a0 .. ak]  = alternatives: the union of the intervals, which must be free of gaps (a proof obligation at every call)
+    and a fresh helper non-terminal matches what its expansions match (_add_rule)."""
+    reg.specfun('LO', [('t', 'any')], 'int')
+    reg.specfun('HI', [('t', 'any')], 'int')
+    reg.specfun('SUML', [('xs', 'seq[any]')], 'int', body='0 if len(xs) <= 0 else SUML(xs[:len(xs)-1]) + LO(xs[len(xs)-1])')
+    reg.specfun('SUMH', [('xs', 'seq[any]')], 'int', body='0 if len(xs) <= 0 else SUMH(xs[:len(xs)-1]) + HI(xs[len(xs)-1])')
+    reg.specfuns['SUML'].additive = True
+    reg.specfuns['SUMH'].additive = True
+    # n copies of one symbol: n times its count (induction on n)
+    reg.lemma('suml_rep', [('x', 'any'), ('n', 'int')], requires=['n >= 0'], ensures=['SUML([x] * n) == n * LO(x)', 'SUMH([x] * n) == n * HI(x)'],
+              induct='n', hints=[{'x': 'x', 'n': 'n - 1'}], serves=['C09'])
+    reg.lemmas['suml_rep'].on_rep = True
+
+    ASC = ('all(LO(alts[j]) <= HI(alts[j]) for j in range(0, len(alts))) and '
+           'all(LO(alts[j]) <= LO(alts[j + 1]) and LO(alts[j + 1]) <= HI(alts[j]) + 1 and HI(alts[j]) <= HI(alts[j + 1]) for j in range(0, len(alts) - 1))')
+    DESC = ('all(LO(alts[j]) <= HI(alts[j]) for j in range(0, len(alts))) and '
+            'all(LO(alts[j + 1]) <= LO(alts[j]) and LO(alts[j]) <= HI(alts[j + 1]) + 1 and HI(alts[j + 1]) <= HI(alts[j]) for j in range(0, len(alts) - 1))')
+    reg.contract('ST.expansion', assumed=True, pure=True, params={'data': 'str', 'children': 'list[any]'}, returns='any',
+                 ensures=['LO(result) == SUML(seq(children))', 'HI(result) == SUMH(seq(children))'])
+    # alternatives listed in ascending (default) or descending order of what they match; no gap between neighbours
+    reg.contract('ST.expansions', assumed=True, pure=True, params={'data': 'str', 'alts': 'list[any]'}, returns='any',
+                 requires=['len(alts) >= 1', ASC], ensures=['LO(result) == LO(alts[0])', 'HI(result) == HI(alts[len(alts) - 1])'])
+    reg.contract('ST.expansions.desc', assumed=True, pure=True, params={'data': 'str', 'alts': 'list[any]'}, returns='any',
+                 requires=['len(alts) >= 1', DESC], ensures=['LO(result) == LO(alts[len(alts) - 1])', 'HI(result) == HI(alts[0])'])
+
+    reg.cls('EBNF', target='lark.load_grammar:EBNF_to_BNF', fields={'rules_cache': 'dict[any,any]', 'new_rules': 'list[any]', 'i': 'int', 'prefix': 'str', 'rule_options': 'any'})
+    # representation invariant of the helper-rule cache: an entry filed under a repeat-rule key matches what that key stands for
+    INV = 'all(implies(PROM(k), GOOD(k, v)) for k, v in self.rules_cache.items())'
+    reg.specfun('PROM', [('k', 'any')], 'bool', doc='the cache key is one of the two repeat-rule key shapes')
+    reg.specfun('GOOD', [('k', 'any'), ('v', 'any')], 'bool', doc='the cached non-terminal v matches what the key k stands for')
+    T5, T6 = 'tuple[int,int,any,any,bool]', 'tuple[int,int,any,any,str,bool]'
+    reg.axiom('good.repeat', [('k', T5), ('v', 'any')],
+              'PROM(cast(k, any)) and GOOD(cast(k, any), v) == (LO(v) == k[0] * LO(k[2]) + k[1] * LO(k[3]) and HI(v) == k[0] * HI(k[2]) + k[1] * HI(k[3]))',
+              ['GOOD(cast(k, any), v)'])
+    reg.axiom('good.repeat_opt', [('k', T6), ('v', 'any')],
+              'PROM(cast(k, any)) and GOOD(cast(k, any), v) == (LO(v) == 0 and HI(v) == k[0] * LO(k[2]) + k[1] * LO(k[3]) - 1)',
+              ['GOOD(cast(k, any), v)'])
+    reg.axiom('good.ext', [('k', 'any'), ('v', 'any'), ('w', 'any')], 'implies(LO(v) == LO(w) and HI(v) == HI(w), GOOD(k, v) == GOOD(k, w))', [['GOOD(k, v)', 'GOOD(k, w)']])
+    reg.contract('lark.load_grammar:EBNF_to_BNF._keep_all_tokens', assumed=True, kind='method', pure=True, params={'self': 'EBNF'}, returns='bool')
+    reg.contract('lark.load_grammar:EBNF_to_BNF._name_rule', assumed=True, kind='method', params={'self': 'EBNF', 'inner': 'str'}, returns='str', modifies=['self'],
+                 ensures=['self.rules_cache is old(self.rules_cache)', 'self.new_rules is old(self.new_rules)', 'self.rule_options == old(self.rule_options)'])      # only the counter self.i moves
+    # definitional: the non-terminal created for a helper rule matches what the rule's expansions match (name freshness: _name_rule's counter, assumed)
+    reg.contract('NonTerminal', assumed=True, pure=True, params={'name': 'str', 'defn': 'any'}, ghost_params=['defn'], returns='any',
+                 ensures=['LO(result) == LO(defn)', 'HI(result) == HI(defn)'])
+    reg.contract('lark.load_grammar:EBNF_to_BNF._add_rule', serves=['C09'], kind='method',
+                 params={'self': 'EBNF', 'key': 'any', 'name': 'str', 'expansions': 'any'}, returns='any', modifies=['self.rules_cache', 'self.new_rules'],
+                 requires=[INV, 'implies(PROM(key), GOOD(key, expansions))'],
+                 ensures=[INV, 'LO(result) == LO(expansions)', 'HI(result) == HI(expansions)',
+                          # the rule is recorded under its name, and the cache gains exactly this entry
+                          'len(self.new_rules) == old(len(self.new_rules)) + 1',
+                          'self.new_rules[len(self.new_rules) - 1] == cast((name, expansions, self.rule_options), any)',
+                          'key in self.rules_cache and self.rules_cache[key] == result',
+                          'all(implies(k != key, (k in self.rules_cache) == old(k in self.rules_cache)) for k in ANYV)'],
+                 ghost={'args:NonTerminal#0': {'defn': 'expansions'}}, names={'NonTerminal': ('contract', 'NonTerminal')}, replay=replay_repeats)
+
+    COMMON = dict(serves=['C09'], kind='method', replay=replay_repeats,
+                  names={'ST': ('dispatch', {'expansion': 'ST.expansion', 'expansions': 'ST.expansions'})})
+    reg.contract('lark.load_grammar:EBNF_to_BNF._add_repeat_rule',
+                 params={'self': 'EBNF', 'a': 'int', 'b': 'int', 'target': 'any', 'atom': 'any'}, returns='any',
+                 requires=[INV, 'a >= 0', 'b >= 0', 'LO(target) == HI(target)', 'LO(atom) == HI(atom)'],      # both match an exact number of occurrences
+                 modifies=['self', 'self.rules_cache', 'self.new_rules'],
+                 # `a` times what target matches, then `b` times what atom matches
+                 ensures=[INV, 'self.rules_cache is old(self.rules_cache)', 'self.new_rules is old(self.new_rules)', 'LO(result) == a * LO(target) + b * LO(atom)', 'HI(result) == a * HI(target) + b * HI(atom)'], **COMMON)
+    reg.contract('lark.load_grammar:EBNF_to_BNF._add_repeat_opt_rule',
+                 params={'self': 'EBNF', 'a': 'int', 'b': 'int', 'target': 'any', 'target_opt': 'any', 'atom': 'any'}, returns='any',
+                 # target matches exactly n, target_opt 0 .. n-1, atom exactly once
+                 requires=[INV, 'a >= 0', 'b >= 0', 'a + b >= 1', 'LO(target) == HI(target)', 'LO(target) >= 1', 'LO(target_opt) == 0', 'HI(target_opt) == LO(target) - 1',
+                           'LO(atom) == 1', 'HI(atom) == 1'],
+                 modifies=['self', 'self.rules_cache', 'self.new_rules'],
+                 ensures=[INV, 'self.rules_cache is old(self.rules_cache)', 'self.new_rules is old(self.new_rules)', 'LO(result) == 0', 'HI(result) == a * LO(target) + b - 1'],
+                 ghost={'hint:ST#0': dict(isolate=True, steps=[
+                     'a >= 0 and b >= 0 and a + b >= 1 and LO(target) >= 1 and len(alts) == a + b',
+                     # closed forms of the two groups of alternatives: target * j target_opt (j < a), then target * a atom * i (i < b)
+                     'all(LO(alts[j]) == j * LO(target) and HI(alts[j]) == j * LO(target) + LO(target) - 1 for j in range(0, a))',
+                     'all(LO(alts[a + i]) == a * LO(target) + i and HI(alts[a + i]) == a * LO(target) + i for i in range(0, b))',
+                     # the same, neighbour to neighbour (no products: what the chain condition needs)
+                     'all(HI(alts[j]) == LO(alts[j]) + LO(target) - 1 for j in range(0, a))',
+                     'all(LO(alts[j + 1]) == LO(alts[j]) + LO(target) for j in range(0, a - 1))',
+                     'all(HI(alts[k]) == LO(alts[k]) for k in range(a, a + b))',
+                     'all(LO(alts[k + 1]) == LO(alts[k]) + 1 for k in range(a, a + b - 1))',
+                     'implies(a >= 1 and b >= 1, LO(alts[a]) == HI(alts[a - 1]) + 1)',
+                     'LO(alts[0]) == 0',
+                     'HI(alts[a + b - 1]) == a * LO(target) + b - 1']),
+                        # what the cache key promises, stated without products of unknowns before the key axiom is unfolded
+                        'hint:self._add_rule#0': dict(isolate=[1], axioms=True, steps=[
+                            'LO(expansions) == 0', 'HI(expansions) == a * LO(target) + b - 1', 'LO(atom) == 1'])},
+                 **COMMON)
+    reg.contract('lark.load_grammar:EBNF_to_BNF._generate_repeats',
+                 params={'self': 'EBNF', 'rule': 'any', 'mn': 'int', 'mx': 'int'}, returns='any',
+                 requires=[INV, '0 <= mn', 'mn <= mx', 'LO(rule) == 1', 'HI(rule) == 1'],
+                 modifies=['self', 'self.rules_cache', 'self.new_rules'],
+                 # exactly mn .. mx occurrences, whichever construction is chosen
+                 ensures=[INV, 'self.rules_cache is old(self.rules_cache)', 'self.new_rules is old(self.new_rules)', 'LO(result) == mn', 'HI(result) == mx'],
+                 loops={0: dict(let={'S0': 'seq(_s0)'},
+                                inv=[INV, 'self.rules_cache is old(self.rules_cache)', 'self.new_rules is old(self.new_rules)', '_s0 == S0',
+                                     'LO(mn_target) == FOLD(prefix(S0, _i0))', 'HI(mn_target) == LO(mn_target)']),
+                        1: dict(let={'S1': 'seq(_s1)', 'DF': 'seq(diff_factors)'},
+                                inv=[INV, 'self.rules_cache is old(self.rules_cache)', 'self.new_rules is old(self.new_rules)', '_s1 == S1', 'seq(diff_factors) == DF',
+                                     'LO(diff_target) == FOLD(prefix(S1, _i1))', 'HI(diff_target) == LO(diff_target)', 'LO(diff_target) >= 1',
+                                     'LO(diff_opt_target) == 0', 'HI(diff_opt_target) == LO(diff_target) - 1'])},
+                 **dict(COMMON, names=dict(COMMON['names'], small_factors=('contract', 'lark.utils:small_factors'),
+                                           REPEAT_BREAK_THRESHOLD=('modconst', 'lark.load_grammar'), SMALL_FACTOR_THRESHOLD=('modconst', 'lark.load_grammar'))))
+
+    # ---- the operator dispatch: ?, +, * and ~ on one rule item
+    reg.specfun('INF', [], 'int', doc='"no upper bound": at least every finite count')
+    reg.axiom('inf.large', [], 'INF() >= 1', [])
+    reg.cls('OpToken', fields={'value': 'str'})
+    # definitional: the left-recursive helper rule  t: expr | t expr  matches one or more occurrences of expr
+    reg.contract('lark.load_grammar:EBNF_to_BNF._add_recurse_rule', assumed=True, kind='method',
+                 params={'self': 'EBNF', 'type_': 'str', 'expr': 'any'}, returns='any', modifies=['self', 'self.rules_cache', 'self.new_rules'],
+                 requires=['LO(expr) == 1', 'HI(expr) == 1'],
+                 ensures=[INV, 'self.rules_cache is old(self.rules_cache)', 'self.new_rules is old(self.new_rules)', 'LO(result) == 1', 'HI(result) == INF()'])
+    reg.contract('lark.load_grammar:EBNF_to_BNF.expr', serves=['C09'], kind='method',
+                 params={'self': 'EBNF', 'rule': 'any', 'op': 'OpToken', 'args': 'seq[any]'}, returns='any',       # *args: an immutable tuple
+                 # the loader's own grammar: op is one of ? + * ~, and ~ comes with one or two NUMBER tokens
+                 requires=[INV, 'LO(rule) == 1', 'HI(rule) == 1', "op.value in ('?', '+', '*', '~')",
+                           "implies(op.value == '~', (len(args) == 1 or len(args) == 2) and int(args[0]) >= 0)"],
+                 modifies=['self', 'self.rules_cache', 'self.new_rules'],
+                 raises={'GrammarError': ["op.value == '~' and len(args) == 2 and int(args[1]) < int(args[0])"]},
+                 ensures=[INV,
+                          "implies(op.value == '?', LO(result) == 0 and HI(result) == 1)",
+                          "implies(op.value == '+', LO(result) == 1 and HI(result) == INF())",
+                          "implies(op.value == '*', LO(result) == 0 and HI(result) == INF())",
+                          "implies(op.value == '~' and len(args) == 1, LO(result) == int(args[0]) and HI(result) == int(args[0]))",
+                          "implies(op.value == '~' and len(args) == 2, LO(result) == int(args[0]) and HI(result) == int(args[1]) and int(args[0]) <= int(args[1]))"],
+                 ghost={'callee:ST#1': 'ST.expansions.desc', 'callee:ST#2': 'ST.expansions.desc'},
+                 replay=replay_repeats,
+                 names={'ST': ('dispatch', {'expansion': 'ST.expansion', 'expansions': 'ST.expansions'}), 'GrammarError': ('class', 'GrammarError')})
+    reg.cls('GrammarError', exception=True)
+
+    # ---- the same operators inside a terminal: a regexp quantifier applied to the whole (grouped) inner pattern.
+    # That (?:r){n,m} / (?:r)? / (?:r)* / (?:r)+ match exactly n..m / 0..1 / any number / one or more consecutive matches of r is the
+    # semantics of Python's re (trusted); what is proved is that exactly this text is produced, with the inner pattern grouped.
+    reg.cls('Pat', fields={'flags': 'any'})
+    reg.specfun('REGEXP', [('p', 'Pat')], 'str')
+    reg.contract('Pat.to_regexp', assumed=True, kind='method', pure=True, params={'self': 'Pat'}, returns='str', ensures=['result == REGEXP(self)'])
+    reg.cls('PatternRE', bases=['Pat'], fields={'value': 'str'})
+    reg.contract('PatternRE.__init__', assumed=True, kind='method', params={'self': 'PatternRE', 'value': 'str', 'flags': 'any'}, modifies=['self'],
+                 ensures=['self.value == value', 'self.flags == flags'])
+    RX = "'(?:' + REGEXP(cast(args[0], Pat)) + ')'"
+    OP = 'cast(args[1], str)'
+    reg.contract('lark.load_grammar:TerminalTreeToPattern.expr', serves=['C09'], kind='method',
+                 params={'self': 'any', 'args': 'list[any]'}, returns='PatternRE', types={'inner': 'Pat', 'op': 'str'},
+                 requires=["implies(%s != '~', len(args) == 2)" % OP, "implies(%s == '~', len(args) == 3 or len(args) == 4)" % OP,
+                           'isinstance(args[0], Pat)',
+                           'all(implies(i >= 2, int(args[i]) >= 0) for i in range(0, len(args)))'],
+                 raises={'GrammarError': ["%s == '~' and len(args) == 4 and int(args[3]) < int(args[2])" % OP]},
+                 ensures=['fresh(result)', 'result.flags == old(cast(args[0], Pat).flags)',
+                          "implies(%s != '~', result.value == %s + %s)" % (OP, RX, OP),
+                          "implies(%s == '~' and len(args) == 3, result.value == %s + '{' + str(int(args[2])) + '}')" % (OP, RX),
+                          "implies(%s == '~' and len(args) == 4, result.value == %s + '{' + str(int(args[2])) + ',' + str(int(args[3])) + '}' and int(args[2]) <= int(args[3]))" % (OP, RX)],
+                 replay=replay_repeats, names={'GrammarError': ('class', 'GrammarError'), 'PatternRE': ('class', 'PatternRE')})
